@@ -1,9 +1,8 @@
 import AndaVerif.Props.C14
 import AndaVerif.Props.C08
 /-
-C14 ↔ C08: the C14 model treats a crash like a clean restart ("bindings and registry are persisted by
-the request that changed them, so the next start sees what a restart sees" — `Drv/C14`, op `crash`),
-and it only lets crashes happen *between* requests. What it assumes of storage is exactly what C08
+C14 ↔ C08: the C14 model has the durable key map and registry as state (`durableBound`, `durableRegistry`,
+written by `metaPut` in ONE atomic step) and lets crashes happen *between* requests. What it assumes of storage is exactly what C08
 proves of the object-store wrapper the server runs on (`MetaStoreBuilder` in `main.rs`):
 
 * registry and key map live in ONE object, the primary database's metadata (`save_extension_from` →
@@ -45,28 +44,30 @@ inductive Found where
   | old | new
 deriving DecidableEq, Repr
 
-/-- the C14 state after a crash inside request `r`: the restart of the state before `r` or of the
-state after it, according to what `persist_crash_is_old_or_new` left in the store -/
+/-- the C14 state after a crash inside request `r`: the model's `metaPut` is one atomic step, and
+`persist_crash_is_old_or_new` is what justifies that — a PUT cut by a crash leaves the old or the
+new object. So the next process loads the durable state as it was before `r` or as `r` left it. -/
 def afterCrashIn (cfg : Cfg) (s : State) (r : Request) : Found → State
-  | .old => restart cfg s
-  | .new => restart cfg (handle cfg s r).1
+  | .old => crash cfg s
+  | .new => crash cfg (handle cfg s r).1
 
-/-- **crash_in_request_is_a_model_state.** After any history, a crash inside any request (whichever
-of the two values the store kept) leaves a state that satisfies the invariants all C14 theorems
-assume — no binding without an admin key, primary never bound — whose bindings are exactly those
-before the request or exactly those after it: a revocation interrupted by a crash either happened
-or did not; it never re-binds anything. -/
+/-- **crash_in_request_is_a_model_state.** After any history (requests, restarts, crashes, armed
+faults), a crash inside any request leaves a state that satisfies the invariants all C14 theorems
+assume — no binding without an admin key, primary never bound, for all three copies of the key map —
+and enforces exactly the durable bindings of before the request or exactly those the request left:
+never a mixture. -/
 theorem crash_in_request_is_a_model_state (cfg : Cfg) (history : List Event) (r : Request) (f : Found) :
     let s := run cfg (init cfg) history
     Inv cfg (afterCrashIn cfg s r f) ∧
-    ((afterCrashIn cfg s r f).bound = s.bound ∨ (afterCrashIn cfg s r f).bound = (handle cfg s r).1.bound) := by
+    ((afterCrashIn cfg s r f).bound = s.durableBound ∨
+     (afterCrashIn cfg s r f).bound = (handle cfg s r).1.durableBound) := by
   intro s
   have hs : Inv cfg s := run_Inv cfg (init cfg) history (init_Inv cfg)
   cases f with
-  | old => exact ⟨Inv_of_bound_eq cfg s _ hs rfl, .inl rfl⟩
+  | old => exact ⟨loadDurable_Inv cfg _ hs.2.2, .inl rfl⟩
   | new =>
     have h' : Inv cfg (handle cfg s r).1 := handle_Inv cfg s r hs
-    exact ⟨Inv_of_bound_eq cfg _ _ h' rfl, .inr rfl⟩
+    exact ⟨loadDurable_Inv cfg _ h'.2.2, .inr rfl⟩
 
 /-- so the confinement theorem applies unchanged to the first request after such a crash -/
 theorem db_key_confined_after_crash (cfg : Cfg) (history : List Event) (r r' : Request) (f : Found)
@@ -76,10 +77,10 @@ theorem db_key_confined_after_crash (cfg : Cfg) (history : List Event) (r r' : R
       (handle cfg (afterCrashIn cfg (run cfg (init cfg) history) r f) r').1 =
         afterCrashIn cfg (run cfg (init cfg) history) r f := by
   have hinv := (crash_in_request_is_a_model_state cfg history r f).1
-  obtain ⟨n, k, a, _, ht, htok, hl, _, _, hs, _⟩ := C14.db_key_confined cfg _ r' hinv.2 h
+  obtain ⟨n, k, a, _, ht, htok, hl, _, _, hs, _⟩ := C14.db_key_confined cfg _ r' hinv.1.2 h
   refine ⟨n, k, ht, htok, hl, ?_, hs⟩
   intro e
-  rw [e, hinv.2] at hl
+  rw [e, hinv.1.2] at hl
   cases hl
 
 /-- non-vacuity: a concrete interrupted revocation has the two outcomes "still bound" / "unbound" -/
